@@ -295,9 +295,9 @@ def step (st : St) (line : String) : St × String :=
   | ["setdecor", wv, d] =>
     ({ st with wrappers := st.wrappers.modify (idOf wv) (fun wr => { wr with decor := parseDecor d }) }, "ok")
   | ["setdecornamed", wv, n] =>
-    let d := st.reg.named (unhex n)
-    ({ st with wrappers := st.wrappers.modify (idOf wv) (fun wr => { wr with decor := d }) },
-      if d = emptyDecoration then "unknown" else "ok")
+    let err := ((st.wrappers.getD (idOf wv) { kind := .text, core := 0 }).setDecorationNamed st.reg (unhex n)).2
+    ({ st with wrappers := st.wrappers.modify (idOf wv) (fun wr => (wr.setDecorationNamed st.reg (unhex n)).1) },
+      if err.isSome then "unknown" else "ok")
   | "sethtml" :: wv :: args =>
     let rc : Option (Nat → Bytes) :=
       match kv args "rc" with
